@@ -56,6 +56,13 @@ class VC:
         self.options.update(options or {})
         self.obligations = []
         self.taints = []
+        self.max_decisions = int((options or {}).get('max_decisions', 150))
+        self.gen_budget_s = int((options or {}).get('gen_budget_s', 1500))
+        self._deadline = None
+        self.deepest = 0
+        self.path_errors = []
+        self.max_decisions_after_deep = int((options or {}).get('max_decisions_after_deep', 45))
+        self.max_path_errors = int((options or {}).get('max_path_errors', 40))
         self.exits = []                     # (kind, value, path_id) for every completed path
         self.worklist = []
         self.n_paths = 0
@@ -170,6 +177,13 @@ class VC:
         if z3.is_false(cond):
             return False
         k = len(self.taken)
+        # a loop WITHOUT a loop contract whose condition is symbolic would fork forever on one path (found on a seeded
+        # change that added `while self.batches.has_ready():` to a function under contract): bound the depth of a path
+        # and the wall time of the generation; both end in `undecided`, never in a hang
+        if k >= self.max_decisions:
+            raise OutOfSubset('more than %d symbolic decisions on one path (a loop without a loop contract over a symbolic condition?)' % self.max_decisions)
+        if self._deadline is not None and time.time() > self._deadline:
+            raise OutOfSubset('generation of the obligations exceeded its wall-time budget (%d s)' % self.gen_budget_s)
         if k < len(self.prefix):
             d = self.prefix[k]
         else:
@@ -186,6 +200,8 @@ class VC:
                 self.n_pruned += 1
                 raise Infeasible()
         self.taken.append(d)
+        if len(self.taken) > self.deepest:
+            self.deepest = len(self.taken)
         self.pc.append(cond if d else z3.Not(cond))
         return d
 
@@ -204,7 +220,10 @@ class VC:
         returns ('return', value) / raises.  Engine exceptions end the path."""
         self.worklist = [[]]
         t0 = time.time()
+        self._deadline = t0 + self.gen_budget_s
         while self.worklist:
+            if time.time() > self._deadline:
+                raise OutOfSubset('generation of the obligations exceeded its wall-time budget (%d s)' % self.gen_budget_s)
             prefix = self.worklist.pop()
             self.reset_path(prefix)
             self.n_paths += 1
@@ -215,9 +234,25 @@ class VC:
                 run_once()
             except PathEnd:
                 pass
+            except OutOfSubset as e:
+                # this PATH left the subset; the other paths are still explored: an obligation of a completed path is a
+                # real obligation (it can be refuted and replayed), while the function as a whole stays undecided
+                self.path_errors.append(str(e))
+                if 'symbolic decisions on one path' in str(e) and self.max_decisions > self.max_decisions_after_deep:
+                    # an unbounded symbolic loop: look at the SHALLOW alternatives only (first iterations), shortest first
+                    self.max_decisions = self.max_decisions_after_deep
+                    dropped = [w for w in self.worklist if len(w) > self.max_decisions]
+                    self.worklist = sorted((w for w in self.worklist if len(w) <= self.max_decisions), key=len, reverse=True)
+                    if dropped:
+                        self.path_errors.append('%d deeper alternatives of the same loop not explored' % len(dropped))
+                if len(self.path_errors) > self.max_path_errors:
+                    self.gen_s = time.time() - t0
+                    raise OutOfSubset('%d paths left the subset; first: %s' % (len(self.path_errors), self.path_errors[0]))
             finally:
                 _CUR[0] = None
         self.gen_s = time.time() - t0
+        if self.path_errors:
+            raise OutOfSubset('%s%s' % (self.path_errors[0], '' if len(self.path_errors) == 1 else ' [and %d more paths]' % (len(self.path_errors) - 1)))
 
 
 def _z(x):
